@@ -36,6 +36,26 @@ def shared_containers(a, b):
     ra, rb = {}, {}; _reach(a, ra); _reach(b, rb)
     return sorted(t for i, t in ra.items() if i in rb and "Troolean" not in t and t not in ("AttrLayout",))
 
+def _wiring_of(o, keep_empty=False):
+    from lenskit.pipeline import Pipeline
+    d = {n: dict(c.inputs) for n, c in o.config.components.items()} if isinstance(o, Pipeline) else {n: dict(e) for n, e in o._edges.items()}
+    return d if keep_empty else {n: e for n, e in d.items() if e}
+
+def _wiring_all(objs):
+    from lenskit.pipeline import Pipeline
+    return [{"kind": "pipe" if isinstance(o, Pipeline) else "builder", "wiring": _wiring_of(o)} for o in objs]
+
+def _schema_of(o):
+    from lenskit.data import Dataset
+    sch = o._data.schema if isinstance(o, Dataset) else o.schema
+    d = {"entities": {c: "class" for c in sch.entities}}
+    for c, e in sch.entities.items(): d["attrs:" + c] = {a: (spec.layout.value if hasattr(spec.layout, "value") else str(spec.layout)) for a, spec in e.attributes.items()}
+    return d
+
+def _schema_all(objs):
+    from lenskit.data import Dataset
+    return [{"kind": "pipe" if isinstance(o, Dataset) else "builder", "wiring": {c: w for c, w in _schema_of(o).items() if w}} for o in objs]
+
 def _pipe_fp(p, ds):
     from lenskit.data import ItemList
     out = p.run("recommender", query=int(ds.users.ids()[0]), n=3)
@@ -79,21 +99,33 @@ def run(case: dict, lean: Lean) -> Outcome:
         p0 = topn_pipeline(mk(), n=4, predicts_ratings=case["predicts"] and case["scorer"] != "pop", name="orig"); p0.train(ds)
         fpf = lambda p: _pipe_fp(p, ds)
         built = {"pipe0": (p0, fpf(p0), fpf)}; builders = []; cur = p0
+        # the same history drives the Lean heap model: objects in creation order, wiring dictionaries as heap cells
+        objs = [p0]; mops = []; snaps = [(0, _wiring_all(objs))]; bidx = []; cur_i = 0
+        init = [[c, sorted([k, v] for k, v in w.items())] for c, w in _wiring_of(p0, keep_empty=True).items()]
         for op in case["ops"]:
             classes.add("op:" + op)
             try:
                 if op == "modify":
                     b = cur.modify(); builders.append(b)
+                    objs.append(b); bidx.append(len(objs) - 1); mops.append({"op": "modify", "p": cur_i})
                     sh = shared_containers(cur.config, vars(b))
                     if sh: failed.append(f"pipeline and its modify() builder share mutable {sorted(set(sh))}"); keys.add("pipeline rewired through a builder obtained with modify()")
                 elif not builders: continue
-                elif op == "connect": b = builders[-1]; b.connect("scorer", items=b.node("items"))
+                elif op == "connect":
+                    b = builders[-1]; b.connect("scorer", items=b.node("items"))
+                    mops.append({"op": "connect", "b": bidx[-1], "comp": "scorer", "k": "items", "v": "items"})
                 elif op == "replace": builders[-1].replace_component("scorer", BiasScorer(damping=rnd.randint(0, 9)))
-                elif op == "add": builders[-1].add_component(f"extra{len(built)}{rnd.randint(0, 999)}", PopScorer())
+                elif op == "add":
+                    nm = f"extra{len(built)}{rnd.randint(0, 999)}"; builders[-1].add_component(nm, PopScorer())
+                    mops.append({"op": "clear", "b": bidx[-1], "comp": nm})
                 elif op == "alias": builders[-1].alias(f"al{rnd.randint(0, 999)}", "scorer")
-                elif op == "clear": builders[-1].clear_inputs("ranker"); builders[-1].connect("ranker", items=builders[-1].node("scorer"), n=builders[-1].node("n"))
+                elif op == "clear":
+                    builders[-1].clear_inputs("ranker"); builders[-1].connect("ranker", items=builders[-1].node("scorer"), n=builders[-1].node("n"))
+                    mops += [{"op": "clear", "b": bidx[-1], "comp": "ranker"}, {"op": "connect", "b": bidx[-1], "comp": "ranker", "k": "items", "v": "scorer"},
+                             {"op": "connect", "b": bidx[-1], "comp": "ranker", "k": "n", "v": "n"}]
                 elif op == "build":
                     pn = builders[-1].build(); pn.train(ds); built[f"pipe{len(built)}"] = (pn, fpf(pn), fpf); cur = pn
+                    objs.append(pn); cur_i = len(objs) - 1; mops.append({"op": "build", "b": bidx[-1]})
                 elif op == "clone": c = cur.clone(); c.train(ds)
                 elif op == "train_clone": c = cur.clone(); c.train(_dataset(rnd))
                 elif op == "run":
@@ -104,14 +136,29 @@ def run(case: dict, lean: Lean) -> Outcome:
             except Exception as e:
                 classes.add("op raised"); continue
             check(built, op)
+            snaps.append((len(mops), _wiring_all(objs)))
+        canon = lambda world: [{"kind": o["kind"], "wiring": {c: dict(map(tuple, kv)) for c, kv in o["wiring"] if kv}} for o in world]
+        deep = [canon(w) for w in lean.call("c14.run", {"deep": True, "init": init, "ops": mops})]
+        shallow = [canon(w) for w in lean.call("c14.run", {"deep": False, "init": init, "ops": mops})]
+        real_tr = [snap for _, snap in snaps]
+        if real_tr != [deep[k] for k, _ in snaps]:
+            model_corr = real_tr == [shallow[k] for k, _ in snaps]       # the code before its repair aliased the wiring dictionaries
+            step = next(j for j, (k, snap) in enumerate(snaps) if snap != deep[k])
+            failed.append(f"wiring of the objects differs from the heap model (copying discipline) after operation {step}: {json.dumps(real_tr[step])[:300]} vs {json.dumps(deep[snaps[step][0]])[:300]}")
+            if model_corr: keys.add("pipeline rewired through a builder obtained with modify()")
+            else: keys.add("?wiring differs from both heap models")
     else:
         fpf = _ds_fp
         built = {"data0": (ds, fpf(ds), fpf)}; builders = []; cur = ds
+        # heap model of the schema: one cell for the entity-class dictionary, one per class for its attribute dictionary
+        objs = [ds]; mops = []; snaps = [(0, _schema_all(objs))]; bidx = []; cur_i = 0
+        init = [[c, sorted([k, v] for k, v in w.items())] for c, w in _schema_of(ds).items()]
         for op in case["ops"]:
             classes.add("op:" + op)
             try:
                 if op == "builder_from":
                     b = DatasetBuilder(cur); builders.append(b)
+                    objs.append(b); bidx.append(len(objs) - 1); mops.append({"op": "modify", "p": cur_i})
                     sh = shared_containers(cur._data.schema, b.schema)
                     if sh: failed.append(f"dataset and the builder created from it share mutable {sorted(set(sh))}"); keys.add("dataset schema changed through a DatasetBuilder created from it")
                 elif not builders: continue
@@ -120,19 +167,36 @@ def run(case: dict, lean: Lean) -> Outcome:
                     builders[-1].add_interactions("rating", pd.DataFrame({"user_id": [900 + rnd.randint(0, 9)], "item_id": [7000 + rnd.randint(0, 9)], "rating": [3.0], "timestamp": [5]}), missing="insert")
                 elif op == "add_attr":
                     ids = [int(x) for x in builders[-1].build().items.ids()][:2]
-                    builders[-1].add_scalar_attribute("item", f"t{rnd.randint(0, 9999)}", ids, [f"v{i}" for i in ids])
-                elif op == "add_class": builders[-1].add_entity_class(f"cls{rnd.randint(0, 9999)}")
+                    an = f"t{rnd.randint(0, 9999)}"
+                    builders[-1].add_scalar_attribute("item", an, ids, [f"v{i}" for i in ids])
+                    mops.append({"op": "connect", "b": bidx[-1], "comp": "attrs:item", "k": an, "v": "scalar"})
+                elif op == "add_class":
+                    cn = f"cls{rnd.randint(0, 9999)}"; builders[-1].add_entity_class(cn)
+                    mops += [{"op": "connect", "b": bidx[-1], "comp": "entities", "k": cn, "v": "class"}, {"op": "clear", "b": bidx[-1], "comp": "attrs:" + cn}]
                 elif op == "filter": builders[-1].filter_interactions("rating", max_time=rnd.randint(0, 100))
-                elif op == "build": dn = builders[-1].build(); built[f"data{len(built)}"] = (dn, fpf(dn), fpf); cur = dn
+                elif op == "build":
+                    dn = builders[-1].build(); built[f"data{len(built)}"] = (dn, fpf(dn), fpf); cur = dn
+                    objs.append(dn); cur_i = len(objs) - 1; mops.append({"op": "build", "b": bidx[-1]})
                 elif op == "reuse_builder":
                     dn = builders[-1].build(); built[f"data{len(built)}"] = (dn, fpf(dn), fpf)
+                    objs.append(dn); mops.append({"op": "build", "b": bidx[-1]})
                     sh = shared_containers(dn._data.schema, builders[-1].schema)
                     if sh: failed.append(f"built dataset and its producing builder share mutable {sorted(set(sh))}"); keys.add("dataset schema changed through a DatasetBuilder created from it")
-                    builders[-1].add_entity_class(f"late{rnd.randint(0, 9999)}")
+                    cn = f"late{rnd.randint(0, 9999)}"; builders[-1].add_entity_class(cn)
+                    mops += [{"op": "connect", "b": bidx[-1], "comp": "entities", "k": cn, "v": "class"}, {"op": "clear", "b": bidx[-1], "comp": "attrs:" + cn}]
                 elif op == "split": list(crossfold_users(cur, 2, SampleN(1), rng=rnd.randint(0, 999)))
             except Exception as e:
                 classes.add("op raised"); continue
             check(built, op)
+            snaps.append((len(mops), _schema_all(objs)))
+        canon = lambda world: [{"kind": o["kind"], "wiring": {c: dict(map(tuple, kv)) for c, kv in o["wiring"] if kv}} for o in world]
+        deep = [canon(w) for w in lean.call("c14.run", {"deep": True, "init": init, "ops": mops})]
+        shallow = [canon(w) for w in lean.call("c14.run", {"deep": False, "init": init, "ops": mops})]
+        real_tr = [snap for _, snap in snaps]
+        if real_tr != [deep[k] for k, _ in snaps]:
+            step = next(j for j, (k, snap) in enumerate(snaps) if snap != deep[k])
+            failed.append(f"schemas of the objects differ from the heap model (copying discipline) after operation {step}: {json.dumps(real_tr[step])[:300]} vs {json.dumps(deep[snaps[step][0]])[:300]}")
+            keys.add("dataset schema changed through a DatasetBuilder created from it" if real_tr == [shallow[k] for k, _ in snaps] else "?schema differs from both heap models")
     return Outcome(not failed, not failed, tuple(sorted(classes)), {"failed": failed[:8]}, tuple(sorted(keys)) if keys else None)
 
 def shrink(case: dict):
@@ -140,6 +204,6 @@ def shrink(case: dict):
         c = dict(case); c["ops"] = case["ops"][:i] + case["ops"][i + 1:]; yield c
 
 SPEC = CheckSpec(
-    pid="C14", theorems=["LK.Heap.C14_Heap_step_deep", "LK.Heap.C14_Heap_immutable"], correspondence_ops=[],
+    pid="C14", theorems=["LK.Heap.C14_Heap_step_deep", "LK.Heap.C14_Heap_immutable"], correspondence_ops=["c14.run"],
     nontrivial_rule="distinct operation histories reaching ≥1 of: each derive / modify / build / clone / split / train / run operation on pipelines and datasets",
     budgets={"quick": 60, "thorough": 2500}, gen=gen, run=run, shrink=shrink)
